@@ -23,9 +23,14 @@ import zoo
 from kernels_tie import optional_is_equal as optional_obligation  # noqa: F401  (`is_equal` regenerated from node.py: optional bridge)
 
 PROPERTY = "C01"
-LEAN_MODULE = "PyOak.Props.C01"
+LEAN_MODULE = "PyOak.Props.C01All"
 THEOREMS = ["PyOak.C01." + t for t in ["cid_eq_iff", "isEqual_iff", "cid_ignores", "cid_congr_kids",
                                        "cid_replace_child", "cid_perm", "canon_perm", "DC.render_inj"]]
+# additions (AUDIT item #6 / C01 §4): sound direction for an ARBITRARY digest; ContentEq read field by field
+THEOREMS += ["PyOak.C01." + t for t in ["cid_of_contentEq", "isEqual_of_contentEq", "not_contentEq_of_cid_ne",
+                                        "contentEq_iff_fields", "contentEq_iff_same", "cid_eq_iff_same",
+                                        "triples_eq_iff", "cmpGet_iff", "absent_ne_present",
+                                        "Demo.fields_need_conforms"]]
 RULE = ("pairs (a, b) of zoo trees: b is a rebuilt copy of a with other origins / non-comparable props / frozensets in "
         "another insertion order (content-equal by construction) or with one single-point mutation (property value or "
         "type 1/True/'1', class, tuple order/length, child moved between fields, absent<->present, falsy<->None, "
